@@ -185,7 +185,7 @@ def configs(tier, seed):
         for i, c in enumerate(_take(inner, n, seed)):
             c = dict(c)
             c.pop("max_states", None)
-            add(fam=fam, inner=c, dl=(i % 2 == 1), ms=(70 if q else (400 if fam == "c03" else 500)), spines=2)
+            add(fam=fam, inner=c, dl=(i % 2 == 1), ms=(70 if q else (300 if fam == "c03" else 400)), spines=2)
     # --- FIFO x random searcher
     for dl in (False, True):
         add(fam="fifo", searcher="random", dl=dl, W=2, T=5, R=2, p2e=2, ms=120 if q else 600, F=1)
@@ -245,8 +245,8 @@ def configs(tier, seed):
         add(fam="misc", kind="dehb", W=3, T=7, R=4, mode="max", ms=700, spines=3)
         add(fam="misc", kind="shb", W=2, T=6, R=4, ms=500, spines=2)
     # --- a few real-BO states (tiny optimiser settings); crash points = prefixes of spine histories only
-    add(fam="fifo", searcher="bayesopt", nir=2, W=2, T=5, R=1, p2e=1, ms=0, spines=2 if q else 3, h=2, bo=True,
-        perms={"1": (2, 0, 3, 1, 4)}, opt_warmstart=True)
+    add(fam="fifo", searcher="bayesopt", nir=2, W=2, T=6, R=1, p2e=1, ms=0, spines=2 if q else 3, h=2, bo=True,
+        perms={"1": (2, 0, 3, 1, 4, 5)}, opt_warmstart=True)
     if not q:
         add(fam="fifo", searcher="bayesopt", nir=2, W=2, T=6, R=1, p2e=0, ms=0, spines=2, h=2, bo=True,
             perms={"1": (2, 0, 3, 1, 4, 5)}, opt_skip_init_length=1, opt_skip_period=2)
